@@ -116,6 +116,11 @@ def integ_order(check, proj):
 
 
 def body(check):
+    from ..disc1d import over_cond_paths
+    over_cond_paths(check, _body_paths)
+
+
+def _body_paths(check):
     proj = check.proj
     check.explanation = ("static analysis, PREMISE LEVEL: the circulant operator of linear convection decoded from the code (STN + "
                          "GVN, see C11) is applied to exact cell averages of monomials; the moment conditions up to the design "
